@@ -9,29 +9,43 @@
 (* they are listed in Expected, one entry per component, call and outcome  *)
 (* class, and the trace specification LockBalanceTrace reports which of    *)
 (* them the drivers reached on the real code.                              *)
+(*                                                                         *)
+(* Some calls wait by design for another call (a change of the data of a   *)
+(* file waits until the frozen readers are closed; opening a file frozen   *)
+(* waits until its writers have closed it).  Such a call gives up every    *)
+(* lock before it waits ("parked"), otherwise the call it waits for could  *)
+(* never run: the set of both calls would not terminate.  A parked call    *)
+(* is in flight but holds nothing; it resumes, may take locks again, and   *)
+(* returns like any other call.                                            *)
 (***************************************************************************)
-EXTENDS Sequences, FiniteSets
+EXTENDS Sequences, FiniteSets, Naturals
 
-CONSTANTS LockIds      \* abstract locks a call may take
+CONSTANTS LockIds,     \* abstract locks a call may take
+          MaxParked    \* bound of the model checker on calls parked at once
 
-VARIABLES phase,       \* "idle" | "running"
-          held         \* locks held by the call in progress
+VARIABLES phase,       \* "idle" | "running": the call that is executing
+          held,        \* locks held by the call in progress
+          parked       \* number of calls in flight that wait for another call
 
-bvars == <<phase, held>>
+bvars == <<phase, held, parked>>
 
-BInit == phase = "idle" /\ held = {}
+BInit == phase = "idle" /\ held = {} /\ parked = 0
 
-Enter   == phase = "idle" /\ phase' = "running" /\ UNCHANGED held
-Acquire == phase = "running" /\ \E k \in LockIds \ held : held' = held \cup {k} /\ UNCHANGED phase
-Release == phase = "running" /\ \E k \in held : held' = held \ {k} /\ UNCHANGED phase
+Enter   == phase = "idle" /\ phase' = "running" /\ UNCHANGED <<held, parked>>
+Acquire == phase = "running" /\ \E k \in LockIds \ held : held' = held \cup {k} /\ UNCHANGED <<phase, parked>>
+Release == phase = "running" /\ \E k \in held : held' = held \ {k} /\ UNCHANGED <<phase, parked>>
 \* A correct component returns only after releasing everything ("defer
 \* UnlockAll()", or an Unlock() on every path).
-Return  == phase = "running" /\ held = {} /\ phase' = "idle" /\ UNCHANGED held
+Return  == phase = "running" /\ held = {} /\ phase' = "idle" /\ UNCHANGED <<held, parked>>
+\* ... and starts to wait for another call only empty handed.
+Park    == phase = "running" /\ held = {} /\ parked < MaxParked /\ phase' = "idle" /\ parked' = parked + 1 /\ UNCHANGED held
+Resume  == phase = "idle" /\ parked > 0 /\ phase' = "running" /\ parked' = parked - 1 /\ UNCHANGED held
 
-BNext == Enter \/ Acquire \/ Release \/ Return
+BNext == Enter \/ Acquire \/ Release \/ Return \/ Park \/ Resume
 BSpec == BInit /\ [][BNext]_bvars
 
-\* The property: at every call boundary nothing is held.
+\* The property: at every call boundary nothing is held, also when the
+\* boundary is "the call waits for another call".
 C14_Balance == phase = "idle" => held = {}
 
 \* The judgement of one observed call return.
@@ -119,6 +133,7 @@ Expected == {
   "dir/VirtualSetAttributes/ErrPerm",
   "dir/VirtualSetAttributes/OK",
   "dir/concurrent-calls/quiescent",
+  "dir/fixture/ok",
   "file/FrozenFile.Close/ok",
   "file/FrozenFile.GetNextRegionOffset/error",
   "file/FrozenFile.GetNextRegionOffset/ok",
@@ -161,6 +176,25 @@ Expected == {
   "file/VirtualSetAttributes/OK",
   "file/VirtualWrite/ErrIO",
   "file/VirtualWrite/OK",
+  "handle/Allocation.AsLeaf/ok",
+  "handle/Allocation.AsLinkableLeaf/ok",
+  "handle/Allocation.AsResolvableAllocator/ok",
+  "handle/Allocation.AsStatefulDirectory/ok",
+  "handle/Allocation.AsStatelessAllocator/ok",
+  "handle/Allocation.AsStatelessDirectory/ok",
+  "handle/DirectoryHandle.GetAttributes/ok",
+  "handle/DirectoryHandle.NotifyRemoval/ok",
+  "handle/DirectoryHandle.Release/ok",
+  "handle/LinkableLeaf.Link/ErrStale",
+  "handle/LinkableLeaf.Link/OK",
+  "handle/LinkableLeaf.Unlink/last",
+  "handle/LinkableLeaf.Unlink/not-last",
+  "handle/Node.VirtualGetAttributes/ok",
+  "handle/Node.VirtualOpenSelf/ok",
+  "handle/Node.VirtualSetAttributes/ok",
+  "handle/ResolveHandle/ErrBadHandle",
+  "handle/ResolveHandle/ErrStale",
+  "handle/ResolveHandle/OK",
   "idle/Acquire/Canceled",
   "idle/Acquire/Internal",
   "idle/Acquire/ok",
@@ -172,18 +206,27 @@ Expected == {
   "ofp/OpenedFile.Close/not-last",
   "ofp/OpenedFile.Lock/NFS4ERR_DENIED",
   "ofp/OpenedFile.Lock/NFS4_OK",
+  "ofp/OpenedFile.Lock/status10042",
   "ofp/OpenedFile.Lock/status22",
   "ofp/OpenedFile.Unlock/status0",
+  "ofp/OpenedFile.Unlock/status10042",
   "ofp/OpenedFile.Unlock/status22",
   "ofp/OpenedFile.UnlockAll/ok",
   "ofp/Resolve/status0",
   "ofp/Resolve/status70",
   "ofp/TestLock/NFS4ERR_DENIED",
   "ofp/TestLock/NFS4_OK",
+  "ofp/TestLock/status10042",
   "ofp/TestLock/status22",
   "sector/AllocateContiguous/ResourceExhausted",
   "sector/AllocateContiguous/ok",
   "sector/FreeContiguous/ok",
-  "sector/FreeList/ok"
+  "sector/FreeList/ok",
+  "usymlink/InstallTemporaryDirectory/InvalidArgument",
+  "usymlink/InstallTemporaryDirectory/ok",
+  "usymlink/VirtualGetAttributes/ok",
+  "usymlink/VirtualSetAttributes/ErrInval",
+  "usymlink/VirtualSetAttributes/ErrPerm",
+  "usymlink/VirtualSetAttributes/OK"
 }
 =============================================================================
